@@ -17,7 +17,10 @@ import numpy as np
 from hypothesis import strategies as st
 
 import pytenet as ptn
-from core import require, Violation
+from core import require, Violation, known_listed
+from lanczos_monitor import LanczosMonitor
+
+KEY_F5_ABORT = 'dmrg-abort-after-undetected-lanczos-breakdown'
 from gen_qn import mps_desc, mpo_desc, build_mps, build_mpo, _pref_order
 from gen_dyn import ham_desc, build_ham, ham_qd
 from gen_graph import chain_list, build_chains, random_opmap, OID_ID
@@ -320,20 +323,31 @@ def run_history(case, rec, mode):
             qf, ql = np.array(a.qD[0]).copy(), np.array(a.qD[-1]).copy()
             iters = 1 + step[4] % 6
             tol_split = [0, 0, 1e-8, 1e-2][step[5] % 4]
-            if kind == 'tdvp':
-                dt = [0.05j, -0.1j, 0.02, 0.03 + 0.04j][step[6] % 4]
-                nsteps = 1 + step[7] % 2
-                if two:
-                    ptn.integrate_local_twosite(o, a, dt, nsteps, numiter_lanczos=iters, tol_split=tol_split)
-                else:
-                    ptn.integrate_local_singlesite(o, a, dt, nsteps, numiter_lanczos=iters)
-            else:
-                sweeps = 1 + step[6] % 2
-                iters = max(2, iters)
-                if two:
-                    ptn.calculate_ground_state_local_twosite(o, a, sweeps, numiter_lanczos=iters, tol_split=tol_split)
-                else:
-                    ptn.calculate_ground_state_local_singlesite(o, a, sweeps, numiter_lanczos=iters)
+            with LanczosMonitor() as mon:
+                try:
+                    if kind == 'tdvp':
+                        dt = [0.05j, -0.1j, 0.02, 0.03 + 0.04j][step[6] % 4]
+                        nsteps = 1 + step[7] % 2
+                        if two:
+                            ptn.integrate_local_twosite(o, a, dt, nsteps, numiter_lanczos=iters, tol_split=tol_split)
+                        else:
+                            ptn.integrate_local_singlesite(o, a, dt, nsteps, numiter_lanczos=iters)
+                    else:
+                        sweeps = 1 + step[6] % 2
+                        iters = max(2, iters)
+                        if two:
+                            ptn.calculate_ground_state_local_twosite(o, a, sweeps, numiter_lanczos=iters, tol_split=tol_split)
+                        else:
+                            ptn.calculate_ground_state_local_singlesite(o, a, sweeps, numiter_lanczos=iters)
+                except Exception:
+                    # known finding F5 (cascade): a garbage Ritz vector after an undetected Lanczos breakdown zeroes a site tensor
+                    # and the next local solve aborts (`assert nrmv > 0`), leaving the state half updated
+                    if kind == 'dmrg' and mon.past_breakdown and known_listed('C02' if mode == 'c02' else 'C19', KEY_F5_ABORT):
+                        rec.label('dmrg_aborted_after_breakdown')
+                        rec.excluded_known += 1
+                        w.mps = [m for m in w.mps if m is not a]
+                        continue
+                    raise
             require(np.array_equal(a.qD[0], qf) and np.array_equal(a.qD[-1], ql),
                     kind + ': leading / trailing bond quantum numbers of the state changed')
             if 'from_vector' in w.kinds_on.get(id(a), ()):
